@@ -633,7 +633,8 @@ def g_hist(rng, passed=False):
 # --- probes (oracle only): event-driven privacy, in-place aliasing
 
 def g_probe(rng):
-    t = rng.choice(["siblings", "siblings", "callee-waits", "callee-waits", "inplace-list-callee", "inplace-list-caller", "inplace-dict", "reassign"])
+    t = rng.choice(["siblings", "siblings", "callee-waits", "callee-waits", "inplace-list-callee", "inplace-list-caller", "inplace-dict", "reassign",
+                    "siblings-own-default", "siblings-own-default"])
     var = rng.choice(["v", "w", "item"])
     vals = rng.sample(SCALARS_DISTINCT[1:], 4)
     form = rng.choice(["start", "activate"])
@@ -645,6 +646,40 @@ def g_probe(rng):
         rng.shuffle(order)
         events = [{"type": "Go", "n": i} for i in order]
         expect = [["Em", {"v": vals[1]}]] + [["Ef", {"n": i, "v": [i, vals[0]]}] for i in order]
+    elif t == "siblings-own-default":
+        # waiting sibling instances of one flow, each mutating ITS OWN defaulted parameter / local in place before and after the
+        # wait (resumed in random order): every instance shows only what it did itself
+        k = rng.choice([2, 3])
+        typ = rng.choice(["list", "list", "set", "dict"])
+        d = rng.choice(HIST_DEFAULTS[typ])
+        m1 = {"list": "($b.append($n))", "set": "($b.add($n))", "dict": '($b.update({"id": $n}))'}[typ]
+        m2 = {"list": f"($b.append({render_val(vals[0])}))", "set": f"($b.add({render_val(vals[0])}))", "dict": f'($b.update({{"z": {render_val(vals[0])}}}))'}[typ]
+        loc = rng.random() < 0.5
+        src = (f"flow fa $n $b={render_val(d)}\n" + (f"  ${var} = {render_val(d)}\n  {m1.replace('$b', '$' + var)}\n" if loc else "") + f"  {m1}\n  match Go(n=$n)\n  {m2}\n"
+               f"  send Ef(n=$n, b=$b" + (f", v=${var}" if loc else "") + ")\n  match Never()\n\n"
+               "flow main\n" + "".join(f"  {form} fa({i + 1})\n" for i in range(k)) + "  match Never()\n")
+        order = list(range(1, k + 1))
+        rng.shuffle(order)
+        events = [{"type": "Go", "n": i} for i in order]
+
+        def after(i, both):
+            v = copy.deepcopy(d)
+            if typ == "list":
+                v.append(i)
+                if both:
+                    v.append(vals[0])
+            elif typ == "set":
+                v.add(i)
+                if both:
+                    v.add(vals[0])
+            else:
+                v["id"] = i
+                if both:
+                    v["z"] = vals[0]
+            return v
+
+        expect = [["Ef", dict({"n": i, "b": after(i, True)}, **({"v": after(i, False)} if loc else {}))] for i in order]
+        # (form `activate`: distinct `n` make distinct activated instances)
     elif t == "callee-waits":
         src = (f"flow fa ${var}\n  send E1(v=${var})\n  match Go()\n  send E2(v=${var})\n  ${var} = {render_val(vals[2])}\n  send E3(v=${var})\n  match Never()\n\n"
                f"flow main\n  ${var} = {render_val(vals[0])}\n  {form} fa(${var})\n  ${var} = {render_val(vals[1])}\n  send Em(v=${var})\n  match Done()\n  send Em2(v=${var})\n  match Never()\n")
